@@ -140,7 +140,11 @@ func (c *cursor) int() int64   { return hx.Atoi(c.next()) }
 
 var decomp = kgo.DefaultDecompressor()
 
-func runReq(t []string) string {
+func runReq(t []string) string { return runReqMode(t, false) }
+
+// runReqMode: lenOnly prints the length of every written request instead of its bytes (op `reqlen`, for
+// requests too large to hex-encode; not generated, used for manual probes).
+func runReqMode(t []string, lenOnly bool) string {
 	c := &cursor{t: t, i: 1}
 	v := int16(c.int())
 	pv := int32(c.int())
@@ -282,7 +286,11 @@ func runReq(t []string) string {
 	fmt.Fprintf(&sb, " nreq=%d", len(out.Reqs))
 	maxOver := 0
 	for _, r := range out.Reqs {
-		fmt.Fprintf(&sb, " R %d %d %s", r.Version, r.Accounted, hx.Hex(r.Bytes))
+		if lenOnly {
+			fmt.Fprintf(&sb, " R %d %d len=%d", r.Version, r.Accounted, len(r.Bytes))
+		} else {
+			fmt.Fprintf(&sb, " R %d %d %s", r.Version, r.Accounted, hx.Hex(r.Bytes))
+		}
 		if d := len(r.Bytes) - int(limit); d > maxOver {
 			maxOver = d
 		}
@@ -376,6 +384,8 @@ func run() {
 		switch t[0] {
 		case "req":
 			return runReq(t)
+		case "reqlen":
+			return runReqMode(t, true)
 		case "wire":
 			return runWire(t)
 		}
